@@ -6,6 +6,7 @@ Model  = PdfVerif/Model/Paths.lean  (what pdfminer does: flat `curpath`, operato
 Spec   = PdfVerif/Spec/Paths.lean   (what the property demands: sub-path records, `shapeOf`)
 -/
 import PdfVerif.Lemmas.PathsProg
+import PdfVerif.Lemmas.PathsRect
 
 set_option linter.constructorNameAsVariable false
 
@@ -181,6 +182,128 @@ theorem C16_page_ctm (x0 y0 x1 y1 : Rat) :
     apply_matrix_pt (pageCtm 180 x0 y0 x1 y1) (x1, y1) = (0, 0) ∧
     apply_matrix_pt (pageCtm 270 x0 y0 x1 y1) (x0, y1) = (0, 0) := by
   refine ⟨?_, ?_, ?_, ?_⟩ <;> simp [pageCtm, apply_matrix_pt] <;> grind
+
+/-! ## Round 6: the straight-line tests of `paint_path` (regenerated from converter.py on every run) -/
+
+/-- The shape-string tests and point indices of `PDFLayoutAnalyzer.paint_path`, extracted from the Python
+source, are the ones the property demands: a line is `ml`/`mlh` with end points `pts[0], pts[1]`; a rectangle
+candidate is `mlllh`/`mllll` with `pts[0] == pts[4]`, corners `pts[0], pts[2]`, points `pts[:4]`; the redundant
+closing `l` is dropped when `len(shape) > 3`, the string ends in `lh` and `pts[-2] == pts[0]`.  The model's
+`classifyShape` / `redundantL` / `paintSingle` are built from these definitions, so an edit of any of these
+lines of converter.py breaks this proof (and `C16_paint_path`). -/
+theorem C16_shape_tests :
+    lineShapes = [['m', 'l', 'h'], ['m', 'l']] ∧ linePts = (0, 1) ∧
+    rectShapes = [['m', 'l', 'l', 'l', 'h'], ['m', 'l', 'l', 'l', 'l']] ∧ closedLoopPts = (0, 4) ∧
+    rectCorners = (0, 2) ∧ rectPtsTake = 4 ∧
+    redundantMinLen = 3 ∧ redundantSuffix = ['l', 'h'] ∧ redundantPts = (2, 0) ∧ redundantCut = 2 ∧
+    redundantTail = ['h'] := by
+  decide
+
+/-- The regenerated `has_square_coordinates` holds exactly for axis-aligned quadrilaterals (first side
+vertical, or first side horizontal). -/
+theorem C16_square_coordinates (p0 p1 p2 p3 : Point) :
+    squareCoords p0 p1 p2 p3 = true ↔
+      (p0.1 = p1.1 ∧ p1.2 = p2.2 ∧ p2.1 = p3.1 ∧ p3.2 = p0.2) ∨
+      (p0.2 = p1.2 ∧ p1.1 = p2.1 ∧ p2.2 = p3.2 ∧ p3.1 = p0.1) := by
+  rw [squareCoords_eq]
+  unfold axisAligned
+  rw [decide_eq_true_eq]
+
+/-- When is a transformed rectangle still an `LTRect`?  For EVERY matrix `(a b c d e f)` (rotation, shear,
+mirror, singular) and every `x y w h re` with `w ≠ 0`, `h ≠ 0` (negative extents included) painted by any
+operator: exactly one shape; it is an `LTRect` iff the matrix maps the y direction onto one axis without
+collapsing it and the x direction into the other axis (`a = d = 0, c ≠ 0` or `b = c = 0, d ≠ 0`: multiples of
+quarter turns and mirrors with any scales, the x scale may be 0); otherwise an `LTCurve`.  Points = the
+transformed corners in path order (+ the closing point for a curve, unless the matrix collapses the y
+direction: then the 4th side is the closing segment); `original_path` = the transformed `m l l l h`;
+flags, width, dash and colours are those of the paint call. -/
+theorem C16_rect_under_ctm (a b c d e f : Rat) (args : PaintArgs) (x y w h : Rat) (hw : w ≠ 0) (hh : h ≠ 0) :
+    ∃ sh, paintPath (a, b, c, d, e, f) args ((rePath x y w h).filterMap segOfRaw) = [sh] ∧
+      (sh.kind = .rect ↔ (a = 0 ∧ d = 0 ∧ c ≠ 0) ∨ (b = 0 ∧ c = 0 ∧ d ≠ 0)) ∧
+      (sh.kind ≠ .rect → sh.kind = .curve) ∧
+      sh.pts = (let T := apply_matrix_pt (a, b, c, d, e, f)
+                if sh.kind = .rect ∨ (c = 0 ∧ d = 0) then [T (x, y), T (x + w, y), T (x + w, y + h), T (x, y + h)]
+                else [T (x, y), T (x + w, y), T (x + w, y + h), T (x, y + h), T (x, y)]) ∧
+      sh.path = (let T := apply_matrix_pt (a, b, c, d, e, f)
+                 [.m (T (x, y)), .l (T (x + w, y)), .l (T (x + w, y + h)), .l (T (x, y + h)), .h]) ∧
+      sh.stroke = args.stroke ∧ sh.fill = args.fill ∧ sh.evenodd = args.evenodd ∧
+      sh.linewidth = args.gs.linewidth ∧ sh.dash = args.gs.dash ∧ sh.scolor = args.gs.scolor ∧
+      sh.ncolor = args.gs.ncolor := by
+  have hcol := re_corner_collapses a b c d e f x y h hh
+  have hsq := re_square_under_ctm a b c d e f x y w h hw hh
+  rw [paintPath_re]
+  simp only []
+  by_cases h1 : c = 0 ∧ d = 0
+  · rw [if_pos (hcol.2 h1)]
+    refine ⟨_, rfl, ?_, fun _ => rfl, ?_, rfl, rfl, rfl, rfl, rfl, rfl, rfl, rfl⟩
+    · simp only [mkCurve, mkShape]
+      constructor
+      · intro hk; cases hk
+      · rintro (⟨_, _, hc⟩ | ⟨_, _, hd⟩)
+        · exact absurd h1.1 hc
+        · exact absurd h1.2 hd
+    · simp [mkCurve, mkShape, h1]
+  · rw [if_neg (fun hp => h1 (hcol.1 hp))]
+    by_cases h2 : (a = 0 ∧ d = 0) ∨ (b = 0 ∧ c = 0)
+    · rw [if_pos (hsq.2 h2)]
+      refine ⟨_, rfl, ?_, fun hk => absurd rfl hk, ?_, rfl, rfl, rfl, rfl, rfl, rfl, rfl, rfl⟩
+      · simp only [mkRect, mkShape, true_iff]
+        rcases h2 with ⟨ha, hd⟩ | ⟨hb, hc⟩
+        · exact Or.inl ⟨ha, hd, fun hc => h1 ⟨hc, hd⟩⟩
+        · exact Or.inr ⟨hb, hc, fun hd => h1 ⟨hc, hd⟩⟩
+      · simp [mkRect, mkShape]
+    · rw [if_neg (fun hp => h2 (hsq.1 hp))]
+      refine ⟨_, rfl, ?_, fun _ => rfl, ?_, rfl, rfl, rfl, rfl, rfl, rfl, rfl, rfl⟩
+      · simp only [mkCurve, mkShape]
+        constructor
+        · intro hk; cases hk
+        · rintro (⟨ha, hd, _⟩ | ⟨hb, hc, _⟩)
+          · exact absurd (Or.inl ⟨ha, hd⟩) h2
+          · exact absurd (Or.inr ⟨hb, hc⟩) h2
+      · simp [mkCurve, mkShape, h1]
+
+/-- Non-vacuity / instances: a quarter turn with scale 2 and a negative height keeps the `LTRect` (corners in
+path order); a shear makes it a 5-point `LTCurve`; a matrix collapsing the y direction gives a 4-point curve. -/
+example :
+    (paintPath (0, 2, -2, 0, 5, 7) (argsOf cexG true true false) ((rePath 1 2 3 (-4)).filterMap segOfRaw)).map
+        (fun s => (s.kind, s.pts)) = [(.rect, [(1, 9), (1, 15), (9, 15), (9, 9)])] ∧
+    (paintPath (1, 0, 1, 1, 0, 0) (argsOf cexG true false false) ((rePath 0 0 2 1).filterMap segOfRaw)).map
+        (fun s => (s.kind, s.pts)) = [(.curve, [(0, 0), (2, 0), (3, 1), (1, 1), (0, 0)])] ∧
+    (paintPath (1, 1, 0, 0, 0, 0) (argsOf cexG true false false) ((rePath 0 0 2 1).filterMap segOfRaw)).map
+        (fun s => (s.kind, s.pts)) = [(.curve, [(0, 0), (2, 2), (2, 2), (0, 0)])] := by
+  refine ⟨by decide +kernel, by decide +kernel, by decide +kernel⟩
+
+/-! ## Frame rules: clipping does not paint; painting touches nothing but the path and the output -/
+
+/-- `W` / `W*` (empty bodies in pdfinterp.py, checked by the translator) are no-ops of the interpreter:
+nothing is painted, the current path stays for the painting operator that follows, nothing else changes -
+for every state and operand stack. -/
+theorem C16_clip_does_not_paint (k : OpK) (hk : k ∈ [OpK.W, .Wstar]) (st : IState) : doOp k st = .ok st := by
+  simp only [List.mem_cons, List.mem_nil_iff, or_false] at hk
+  rcases hk with rfl | rfl <;> rfl
+
+/-- Every painting operator and `n`, run through `execute`'s dispatch on ANY state: the path is cleared, and
+CTM, graphics state (width, dash, colours, colour spaces), saved states, operand stack and colour-space map
+are untouched; `n` leaves the output untouched too. -/
+theorem C16_paint_frame (k : OpK) (hk : k ∈ [OpK.S, .s, .f, .F, .fstar, .B, .Bstar, .b, .bstar, .n]) (st : IState) :
+    ∃ st', doOp k st = .ok st' ∧ st'.curpath = [] ∧ st'.ctm = st.ctm ∧ st'.gs = st.gs ∧
+      st'.gstack = st.gstack ∧ st'.argstack = st.argstack ∧ st'.csmap = st.csmap ∧
+      (k = .n → st'.out = st.out) := by
+  have hH : ∀ s : IState, (doH s).ctm = s.ctm ∧ (doH s).gs = s.gs ∧ (doH s).gstack = s.gstack ∧
+      (doH s).argstack = s.argstack ∧ (doH s).csmap = s.csmap := by
+    intro s; unfold doH; split <;> exact ⟨rfl, rfl, rfl, rfl, rfl⟩
+  simp only [List.mem_cons, List.mem_nil_iff, or_false] at hk
+  rcases hk with rfl | rfl | rfl | rfl | rfl | rfl | rfl | rfl | rfl | rfl
+  case inr.inr.inr.inr.inr.inr.inr.inr.inr => exact ⟨_, rfl, rfl, rfl, rfl, rfl, rfl, rfl, fun _ => rfl⟩
+  all_goals first
+    | exact ⟨_, rfl, rfl, rfl, rfl, rfl, rfl, rfl, fun hn => by cases hn⟩
+    | exact ⟨_, rfl, rfl, (hH st).1, (hH st).2.1, (hH st).2.2.1, (hH st).2.2.2.1, (hH st).2.2.2.2,
+        fun hn => by cases hn⟩
+
+/-- A clipping operator between path construction and painting changes nothing: `… W n`, `… W* f` etc. -/
+theorem C16_clip_then_paint (c k : OpK) (hc : c ∈ [OpK.W, .Wstar]) (rest : List Tok) (st : IState) :
+    execute (.op c :: .op k :: rest) st = execute (.op k :: rest) st := by
+  simp only [execute, step, C16_clip_does_not_paint c hc st]
 
 /-! ## Totality -/
 
